@@ -115,6 +115,9 @@ def run_tree(rec, tier, seed, ti, spec, other):
                    ("walk-shuffle-a", dict(walk_seed=11 + ti)), ("walk-shuffle-b", dict(walk_seed=977 + ti, hashseed="5")),
                    ("same-instance-twice", dict(mode="twice-same-instance")), ("new-instance-twice", dict(mode="twice-new-instance")),
                    ("after-failed-run", dict(mode="failed-then-good"))]
+        if ti < 0:
+            # the hand-written tree has cross-directory enum references: try more enumeration orders
+            configs += [("walk-shuffle-%d" % w, dict(walk_seed=w)) for w in (101, 202, 303, 404, 505, 606)]
         if tier == "thorough":
             configs += [("hashseed-%d" % h, dict(hashseed=str(h))) for h in (7, 11, 42, 1000)] + [("walk-shuffle-%d" % w, dict(walk_seed=w)) for w in (3, 5, 8, 13)]
         for cname, kw in configs:
